@@ -49,6 +49,20 @@ RULE = ("messages of the systematic schema (every scalar kind x {plain, optional
 N_REENC_QUICK, N_REENC_THOROUGH = 4, 10
 
 
+def compare(ctx, name, pairs, chunk, prelude):
+    """lib.coq_compare, retried when another check regenerated coq/gen/*.v under our feet (agents run concurrently:
+    the compiled libraries are then momentarily inconsistent; rebuilding our targets restores them)"""
+    for attempt in range(4):
+        try:
+            return lib.coq_compare(ctx, f"{name}_{attempt}" if attempt else name, IMPORTS, pairs, chunk=chunk, prelude=prelude)
+        except RuntimeError as e:
+            if "inconsistent assumptions" not in str(e) or attempt == 3:
+                raise
+            ctx.count("retry:inconsistent_vo")
+            time.sleep(5 + 10 * attempt)
+            lib.build(ctx, ["Properties/C02.vo"] + EXTRA_TARGETS)
+
+
 def safe(f, *a, **k):
     try:
         return True, f(*a, **k)
@@ -117,6 +131,22 @@ def run(ctx):
         Ref, Cls = rs.classes[ci], s.classes[ci].py
         inp = dict(describe(si, ci), bytes=bs.hex(), encoding=label)
         ok, ref2 = safe(Ref.FromString, bs)
+        if expect == "invalid":
+            # not a legal encoding for this schema: the reference rejects it, and so must the specification (T3)
+            if ok:
+                ctx.fail("spec", f"the reference accepts a corpus input marked invalid ({label})", input=inp)
+                return
+            okb, m2 = safe(lambda: Cls().parse(bs))
+            ctx.notes.append(f"invalid input [{label}]: betterproto " + ("ACCEPTS it (C17's business)" if okb else f"rejects it too ({type(m2).__name__})"))
+            c = Case()
+            c.si, c.ci, c.bs, c.label, c.expect, c.kinds = si, ci, bs, label, expect, kinds
+            c.ref_exact, c.impl_ok, c.lit_after = None, okb, None
+            if okb:
+                okl, lit = safe(msggen.obj_literal, s, m2)
+                c.lit_after = lit if okl else None
+            cases.append(c)
+            ctx.count("decode:corpus-invalid")
+            return
         if not ok:
             # generated from the spec's own record writer: the reference must accept it
             ctx.fail("spec", f"the reference rejects a byte string the generator considers a legal encoding ({label}): {ref2}", input=inp)
@@ -171,7 +201,7 @@ def run(ctx):
             add_decode_case(0, names[e["class"]], bytes.fromhex(e["hex"]), "corpus:" + e["what"], expect=e["expect"])
 
     # ------------------------------------------------------------------ generated messages
-    n_per = int(os.environ.get("C02_NPER", 0)) or (26 if not ctx.thorough else 60)
+    n_per = int(os.environ.get("C02_NPER", 0)) or (26 if not ctx.thorough else 140)
     for si, s in enumerate(schemas):
         if refs[si] is None:
             continue
@@ -247,8 +277,12 @@ def run(ctx):
     pairs = []
     for c in cases:
         sc, cls, bs = f"sc{c.si}", f"{msggen.NBUILTIN + c.ci}%nat", coq_bytes(c.bs)
-        refcv = R.tree_cv(c.ref_exact)
         impl = f"(cv_of_obj {c.lit_after})" if c.lit_after is not None else ce("EOther")
+        if c.expect == "invalid":
+            pairs.append((f"(let bs := {bs} in let s := cv_of_aval_opt (sem_bytes {sc} {cls} bs) in CL [s; s; cv_obj_res (parse {sc} {cls} bs); CZ 0])",
+                          cl([ce("EValue"), ce("EValue"), impl, cz(0)])))
+            continue
+        refcv = R.tree_cv(c.ref_exact)
         pairs.append((f"(let bs := {bs} in let s := cv_of_aval_opt (sem_bytes {sc} {cls} bs) in let r := parse {sc} {cls} bs in "
                       f"let sup := supported_bytes {sc} {cls} bs in "
                       f"CL [s; (if sup then cv_abs_res {sc} r else s); cv_obj_res r; cbool sup])",
@@ -262,18 +296,18 @@ def run(ctx):
                 for sel in ("a", "b", "c", "d")]
     # the schema-level hypotheses of the theorems hold on every generated schema
     sch_pairs = [(f"cbool (wf_schema sc{i} && builtins_std sc{i})", cz(1)) for i in range(len(schemas))]
-    for i in lib.coq_compare(ctx, "c02schemas", IMPORTS, sch_pairs, chunk=8, prelude=prelude):
+    for i in compare(ctx, "c02schemas", sch_pairs, 8, prelude):
         ctx.fail("corr", "wf_schema / builtins_std is false on a generated schema: the theorems' hypotheses do not cover what the generator builds",
                  input={"schema": schemas[i].describe()}, theorem_or_correspondence="wf_schema, builtins_std")
     ctx.count("schemas_wf_and_std", len(schemas))
-    bad = lib.coq_compare(ctx, "c02dec", IMPORTS, pairs, chunk=70, prelude=prelude)
+    bad = compare(ctx, "c02dec", pairs, 70, prelude)
     ctx.cov["disagreements_checked"] += len(pairs)
     ctx.notes.append(f"timing: Coq evaluation of the decode cases {time.time() - t_gen:.1f}s")
     n_unsupported_generated = 0
     for i in bad[:12]:
         c = cases[i]
         inp = dict(describe(c.si, c.ci), bytes=c.bs.hex(), encoding=c.label)
-        which = lib.coq_compare(ctx, f"c02dec_split{i}", IMPORTS, split(i), chunk=4, prelude=prelude)
+        which = compare(ctx, f"c02dec_split{i}", split(i), 4, prelude)
         if 0 in which:
             ctx.fail("spec", f"T3: Spec/Wire.sem disagrees with the reference on these bytes ({c.label})", input=inp,
                      expected_reference=pairs[i][1][:3000], model_expr=pairs[i][0][:3000],
@@ -308,7 +342,7 @@ def run(ctx):
 
     # ------------------------------------------------------------------ Coq: encoder side
     ctx.cov["evaluations"] += len(enc_pairs)
-    bad = lib.coq_compare(ctx, "c02enc", IMPORTS, enc_pairs, chunk=60, prelude=prelude)
+    bad = compare(ctx, "c02enc", enc_pairs, 60, prelude)
     ctx.cov["disagreements_checked"] += len(enc_pairs)
     for i in bad[:12]:
         si, ci, inp = enc_meta[i]
@@ -317,7 +351,7 @@ def run(ctx):
                  theorem_or_correspondence="T2 Model/Encode.v <-> bytes(m); C02_encode_legal")
     # how often the side condition of the encoder-side sample holds
     ef_pairs = [(f"cbool (enc_faithful sc{si} {lit_})", cz(1)) for (si, lit_) in enc_lits]
-    not_faithful = lib.coq_compare(ctx, "c02encf", IMPORTS, ef_pairs, chunk=150, prelude=prelude)
+    not_faithful = compare(ctx, "c02encf", ef_pairs, 150, prelude)
     ctx.count("enc_faithful_true", len(ef_pairs) - len(not_faithful))
     ctx.count("enc_faithful_false", len(not_faithful))
     ctx.notes.append("-0.0 in a float/double field without presence is skipped by betterproto's encoder (== default) while the reference emits it: "
